@@ -4,6 +4,7 @@ from ..runner import Prop
 from ..prng import Rng
 from .. import core
 from .. import genv as G
+from .. import gendeep as D
 
 ALPHA = ["$", "{", "}", "[", "\\", ":", "a", "b"]
 CLAUSES = ["", "plain", "a$b", "a{b}", "${a}", "\\${a}", "\\$[a]", "\\\\${a}", "${a\\}b}", "${a\\\\}", "${}", "${a", "a}", "${a}}",
@@ -37,6 +38,12 @@ class C06(Prop):
             yield {"op": "parse", "s": s}
             if i % 3 == 0:
                 yield G.P({"a": "A", "b": {"A": "deep", "a": "x"}, "v": s})
+            if i % 5 == 0:
+                # the same string inside a container that is embedded in another string / reached through a path
+                c = r.choice([[s], {"k": s}, {"in": [{"s": s}, "plain"]}, [s, "\\${a}"]])
+                yield G.P({"a": "A", "b": "B", "c": c, "v": r.choice(["x${c}y", "${c}", "run: ${c}", "${w:${sel}}"]), "sel": "c", "w": {"c": c}})
+        for i in range(150 if tier == "quick" else 3000):
+            yield {"op": "params", "layers": D.escapes_in_containers(Rng(seed, "C06:esc", i)), "fam": "escapes_in_containers"}
 
     def judge(self, req, impl, reply):
         if req.get("op") == "params":
@@ -46,7 +53,11 @@ class C06(Prop):
             if "panic" in impl or "crash" in impl:
                 return dict(agree=False, spec_ok=None, why="implementation panicked/crashed: %s" % impl, concrete=True)
             a = core.results_agree(impl.get("rendered"), model.get("rendered"))
-            return dict(agree=a, spec_ok=None, why="" if a else "rendered differs")
+            ki = core.norm_result(impl.get("rendered"), True)[0]
+            km = core.norm_result(model.get("rendered"), False)[0]
+            # C06.render_* theorems make the model's text the mandated one: a different value (or a value where an
+            # error is mandated, or the reverse) is a concrete failing input
+            return dict(agree=a, spec_ok=None, why="" if a else "rendered differs", concrete=(not a and not (ki == "err" and km == "err")))
         return super().judge(req, impl, reply)
 
     def nontrivial(self, req, impl, reply):
